@@ -27,7 +27,7 @@ func properties() []Property {
 			}},
 		{ID: "C02", Assumptions: []string{aSummaries, aModels, aE1, aE5, "ledger = ten tracked accounts (orbiter, dust collector, users, fee recipients, escrow, CCTP / warp / transfer module accounts) x four denoms; 'interleavings with other transfers' are sequential histories, covered by starting from an arbitrary ledger"},
 			Harnesses: []HarnessSpec{
-				{Name: "H_C02_conservation", Profile: "bit", Quick: b("rcvKinds", 2, "denomKinds", 1, "memoKinds", 1, "amountKinds", 1, "intKinds", 2, "fees", 2, "priors", 1, "pauses", 0, "ptMax", 0, "feeRcpKinds", 1, "faults", 0), Thorough: b("rcvKinds", 2, "denomKinds", 1, "memoKinds", 1, "amountKinds", 1, "intKinds", 4, "fees", 3, "priors", 1, "pauses", 0, "ptMax", 0, "feeRcpKinds", 3, "faults", 0), Covers: []string{"successful-orbiter-transfer", "not-a-successful-orbiter-transfer"}},
+				{Name: "H_C02_conservation", Profile: "bit", Quick: b("rcvKinds", 2, "denomKinds", 1, "memoKinds", 1, "amountKinds", 1, "intKinds", 2, "fees", 2, "priors", 1, "pauses", 0, "ptMax", 0, "feeRcpKinds", 1, "faults", 0), Thorough: b("rcvKinds", 2, "denomKinds", 1, "memoKinds", 1, "amountKinds", 1, "intKinds", 4, "fees", 2, "priors", 1, "pauses", 0, "ptMax", 0, "feeRcpKinds", 2, "faults", 0), Covers: []string{"successful-orbiter-transfer", "not-a-successful-orbiter-transfer"}},
 				{Name: "H_C02_faults", Profile: "bit", Quick: b("rcvKinds", 1, "denomKinds", 1, "memoKinds", 1, "amountKinds", 1, "intKinds", 1, "fees", 1, "priors", 1, "pauses", 0, "ptMax", 0, "feeRcpKinds", 1, "faults", 1), Covers: []string{"successful-orbiter-transfer", "not-a-successful-orbiter-transfer"}},
 			}},
 		{ID: "C03", Assumptions: []string{aSummaries, aModels, aE1, "every fallible environment call (each bank send, the sweep, the ICS-20 application, the token query, each bridge request, each event emission) draws an independent failure bit, so all subsets of failures are covered; naturally occurring failures are the same bits of the respective model", "statistics failures are the documented exception (collections writes do not fail in the model)"},
@@ -37,7 +37,7 @@ func properties() []Property {
 		{ID: "C05", Assumptions: []string{aSummaries, aModels, "the transfer attributes are those after arbitrary pre-actions: source amount A, destination amount D with 0 < D <= A (both symbolic), orbiter balance exactly D", "byte fields are arbitrary byte slices of 0..bytes bytes (bytes = 33 = one past the only length Hyperlane accepts); hook metadata from {empty, 0x, valid hex, bad hex, no prefix, odd length}", "depinject.go wiring is outside the claim (the harness mirrors it with the exported constructors)"},
 			Harnesses: []HarnessSpec{
 				{Name: "H_C05_cctp", Profile: "bit", Quick: b("bytes", 33), Covers: []string{"refused", "forwarded"}},
-				{Name: "H_C05_hyperlane", Profile: "bit", Quick: b("bytes", 33, "hookSym", 0, "bigDomains", 0), Thorough: b("bytes", 33, "hookSym", 1, "bigDomains", 1), TimeoutQuick: 300, Covers: []string{"refused", "forwarded"}},
+				{Name: "H_C05_hyperlane", Profile: "bit", Quick: b("bytes", 33, "hookSym", 0, "bigDomains", 0), Thorough: b("bytes", 33, "hookSym", 1, "bigDomains", 0), TimeoutQuick: 300, TimeoutThorough: 2400, Covers: []string{"refused", "forwarded"}},
 				{Name: "H_C05_internal", Profile: "bit", Covers: []string{"refused", "forwarded"}},
 				{Name: "H_C05_mismatch", Profile: "bit", Covers: []string{"identifier-and-attributes-agree", "mismatch"}},
 				{Name: "H_C05_actions", Profile: "bit", Covers: []string{"fee-action-runs", "action-refused"}},
@@ -60,7 +60,8 @@ func properties() []Property {
 			}},
 		{ID: "C04", Assumptions: []string{aSummaries, aModels, "math.NewIntFromString on a concrete string is computed with math/big (SetString base 0, 256-bit limit) exactly as cosmossdk.io/math does; fixed fee amounts are the decimal rendering of an arbitrary symbolic Int or one of a few non-numbers", "fee recipients are concrete strings (two valid accounts, possibly repeated, and malformed ones): bech32 decoding itself is the SDK's"},
 			Harnesses: []HarnessSpec{
-				{Name: "H_C04_fee", Profile: "bit", Quick: b("entries", 2, "rcpKinds", 3, "feeKinds", 4), Thorough: b("entries", 6, "rcpKinds", 5, "feeKinds", 4), Covers: []string{"refused", "accepted"}},
+				{Name: "H_C04_fee", Profile: "bit", Quick: b("entries", 2, "rcpKinds", 3, "feeKinds", 4), Thorough: b("entries", 3, "rcpKinds", 5, "feeKinds", 4), Covers: []string{"refused", "accepted"}, TimeoutThorough: 2400},
+				{Name: "H_C04_count", Profile: "bit", Covers: []string{"refused", "accepted"}},
 				{Name: "H_C04_compute_amount", Profile: "bit", Covers: []string{"overflow", "non-positive", "positive"}},
 			}},
 		{ID: "C08", Assumptions: []string{aSummaries, aModels, aE1, aE3, "pre-state: any subset of paused protocols and up to prePairs arbitrary paused pairs (one inductive step covers histories of any length)", "counterparty strings of at most strlen bytes; batches of 1..batch ids (empty batches pause the whole protocol and are outside the claim); probe domains < 1000"},
@@ -87,6 +88,7 @@ func properties() []Property {
 				{Name: "H_C13_amounts", Profile: "bit", Quick: b("entries", 2, "srcs", 1, "doms", 1), Thorough: b("entries", 3, "srcs", 2, "doms", 2), Covers: []string{"ledger-built", "direct-lookup-hit", "direct-lookup-miss"}, TimeoutQuick: 300},
 				{Name: "H_C13_counts", Profile: "bit", Quick: b("entries", 2, "srcs", 2, "doms", 2), Thorough: b("entries", 3, "srcs", 2, "doms", 2), Covers: []string{"ledger-built", "direct-lookup-hit", "direct-lookup-miss"}, TimeoutQuick: 300},
 				{Name: "H_C13_index_keys", Profile: "arith", Covers: []string{"stored"}},
+				{Name: "H_C13_paging", Profile: "bit", Quick: b("entries", 4, "limits", 3), Thorough: b("entries", 6, "limits", 7), Covers: []string{"ledger-built", "offset-page", "walk-finished"}},
 			}},
 		{ID: "C14", Assumptions: []string{aSummaries, aModels, "decoded payload shapes are built as Go values through the exported API (every pointer position nil or not, identifiers any int32, byte fields of any length up to the bound, integers and coins of any value; nil math.Int excluded because the Any round trip never yields one) and fed to the stages in the order the receive path calls them: Payload.Validate, the transfer hook, payload processing, and the dispatcher directly", "every instruction that can panic (nil dereference, index / slice bounds, slice-to-array conversion, division by zero, failed type assertion, nil map write, explicit panic) and every documented panic of a summarised library function (math.Int overflow, nil Int receiver, sdk.NewCoin / NewCoins on invalid input) is an obligation on every path", "panics inside the JSON / protobuf codecs and inside bech32 are outside the claim (summarised): e.g. \"fees_info\":[null] panics inside jsonpb before any orbiter code runs"},
 			Harnesses: []HarnessSpec{
@@ -103,7 +105,7 @@ func properties() []Property {
 			}},
 		{ID: "C16", Assumptions: []string{aSummaries, aModels, "denominations are built from 1..segments '/'-free segments (the identifiers transfer / channel-7 / channel-8 / uusdc or arbitrary bytes of length 0..seglen), empty segments allowed; a denomination with more separators than that is outside the claim", "source port/channel: transfer/channel-7 or transfer/channel-8", "reference = the ICS-20 application's own derivation written with the same ibc-go helpers (ReceiverChainIsSource, GetDenomPrefix, ParseDenomTrace); channel identifier syntax is ibc-go's (summarised as a byte predicate)"},
 			Harnesses: []HarnessSpec{
-				{Name: "H_C16_denom", Profile: "bit", Quick: b("segments", 5, "seglen", 1), Thorough: b("segments", 6, "seglen", 4), Covers: []string{"accepted", "refused", "refused-not-returning"}},
+				{Name: "H_C16_denom", Profile: "bit", Quick: b("segments", 5, "seglen", 1), Thorough: b("segments", 6, "seglen", 1), Covers: []string{"accepted", "refused", "refused-not-returning"}, TimeoutThorough: 2400},
 				{Name: "H_C16_ports", Profile: "bit", Covers: []string{"accepted", "refused"}},
 				{Name: "H_C16_credit", Profile: "bit", Quick: b("rcvKinds", 2, "denomKinds", 4, "memoKinds", 1, "amountKinds", 1, "intKinds", 1, "fees", 1, "priors", 0, "pauses", 0, "ptMax", 0, "feeRcpKinds", 1, "faults", 0), Covers: []string{"accepted", "not-accepted"}},
 			}},
